@@ -88,6 +88,8 @@ func main() {
 	runSyndromeKernelErrors()
 	runLookalikeSyndromes()
 	runCosetErrors()
+	runPrefixLocatorHistories()
+	runForneyExtremes()
 	runRegisterStates()
 	chk.Finish()
 }
